@@ -24,6 +24,7 @@ import (
 // ScriptedClient speaks frpc's side of the control protocol by hand. It owns
 // message order, timing, omission and the point at which connections drop.
 type ScriptedClient struct {
+	LoginRespTimeout time.Duration // how long SendLogin waits for the LoginResp (default 10 s)
 	Common    *v1.ClientCommonConfig
 	Connector client.Connector
 	Conn      net.Conn      // control connection (raw)
@@ -101,7 +102,11 @@ func (sc *ScriptedClient) SendLogin(l *msg.Login) error {
 	if err := msg.WriteMsg(sc.Conn, l); err != nil {
 		return err
 	}
-	_ = sc.Conn.SetReadDeadline(time.Now().Add(10 * time.Second))
+	to := sc.LoginRespTimeout
+	if to <= 0 {
+		to = 10 * time.Second
+	}
+	_ = sc.Conn.SetReadDeadline(time.Now().Add(to))
 	if err := msg.ReadMsgInto(sc.Conn, &sc.LoginResp); err != nil {
 		return fmt.Errorf("read LoginResp: %w", err)
 	}
